@@ -853,7 +853,12 @@ pub fn gen_enum(rng: &mut Rng, class: Class) -> Item {
                 let ded = if cps.len() > 1 || rng.chance(1, 4) { format!("{}| ", cp) } else { String::new() };
                 lit += 1;
                 let is_str = cp.contains("str") || cp.contains("String");
-                let l = if is_str { format!("\"v{}\"", lit) } else if *cp == "char" { format!("'{}'", (b'a' + (lit % 26) as u8) as char) } else { format!("{}", lit * 100) };
+                let l = if is_str { format!("\"v{}\"", lit) } else if *cp == "char" { format!("'{}'", (b'a' + (lit % 26) as u8) as char) } else if rng.chance(1, 6) {
+                    // boundary values of every integer width, in every spelling
+                    rng.pick(&["0x7fffffff", "0x80000000", "0x80004005", "0xffffffff", "4294967296", "2147483648", "-2147483649", "0xffff_ffff_ffff_ffff", "9223372036854775807", "-9223372036854775808", "18446744073709551615", "65536", "255u8", "0b1000_0000", "0o777", "1_000_000_000_000", "340282366920938463463374607431768211455"]).to_string()
+                } else {
+                    format!("{}", lit * 100)
+                };
                 match rng.below(4) {
                     0 => {
                         attrs.push(format!("pattern({}{} | {})", ded, l, l.replace('1', "9")));
